@@ -192,8 +192,16 @@ def run_history(hist, paste_threshold=8, final_drain=True, pre=None, nostart=Fal
     ids = {"n": 0}
 
     class Ev(cevents.Event):
+        # a payload-free application event ("tick", "redraw"): every instance equals every other one, the way a
+        # dataclass or namedtuple event does - which one is which is the harness's business (id), not the library's
         def __init__(self, id):
             self.id = id
+
+        def __eq__(self, other):
+            return isinstance(other, Ev)
+
+        def __hash__(self):
+            return 7
 
     class SEv(cevents.ScheduledEvent):
         def __init__(self, when):
